@@ -196,18 +196,24 @@ Theorem C02b_occupy_out_of_range :
   length (gnodes (sg s)) <= idx -> occupy_vacant_node cap debug s idx w = Panic.
 Proof. exact (@occupy_oob). Qed.
 
-(* X1. ensure_node_exists: a live ix is a no-op; for a vacant or absent ix below the index limit it never panics
-and keeps the invariant ([ens_post], C02b_ens_post); with checked indices an ix at or beyond the limit panics
-(add_node(None) at the limit). *)
+(* X1. ensure_node_exists returns its result together with the state reached: a live ix is a no-op; for a vacant
+or absent ix below the index limit it never panics and keeps the invariant ([ens_post], C02b_ens_post); with checked
+indices an ix at or beyond the limit panics (add_node(None) at the limit) -- but only after the padding loop has
+filled the vector up to cap slots: the state left behind has cap - len more vacant slots, all pushed on the free
+list, and satisfies the invariant ([avu_post], C02b_avu_post). *)
 Theorem C02b_ensure_node_exists :
   forall (cap : nat) (capcheck debug : bool) (s : sgraph) (ix : nat),
   SInv cap s ->
-  (nwo (sg s) ix <> None -> ensure_node_exists cap capcheck debug s ix = Ok s) /\
+  (nwo (sg s) ix <> None -> ensure_node_exists cap capcheck debug s ix = (Ok tt, s)) /\
   (nwo (sg s) ix = None ->
    ix < cap ->
    exists s' : sgraph,
-     ensure_node_exists cap capcheck debug s ix = Ok s' /\ SInv cap s' /\ ens_post cap s ix s') /\
-  (capcheck = true -> cap <= ix -> ensure_node_exists cap capcheck debug s ix = Panic).
+     ensure_node_exists cap capcheck debug s ix = (Ok tt, s') /\ SInv cap s' /\ ens_post cap s ix s') /\
+  (capcheck = true ->
+   cap <= ix ->
+   exists s' : sgraph,
+     ensure_node_exists cap capcheck debug s ix = (Panic, s') /\
+     SInv cap s' /\ avu_post cap s (cap - length (gnodes (sg s))) s').
 Proof. exact (@ensure_node_exists_spec). Qed.
 
 (* X1. What ensure_node_exists does to a non-live ix: the vector is extended to max(len, ix + 1) slots; ix becomes
@@ -234,6 +240,26 @@ Theorem C02b_ens_post :
      lseg (fnx (sg s')) (free_node s') (l1 ++ l2) cap /\ bkp (sg s') cap (l1 ++ l2)).
 Proof. exact (@ens_post_meaning). Qed.
 
+(* X1. [avu_post cap s n s']: s' is s with n vacant slots appended (indices len .. len + n - 1) and pushed on the
+free list one by one, which then reads len + n - 1, .., len, <old free list>; weights, edges, adjacency lists and
+counters untouched.  This is what the padding loop of ensure_node_exists leaves behind when it panics at the
+limit (n = cap - len). *)
+Theorem C02b_avu_post :
+  forall (cap : nat) (s : sgraph) (n : nat) (s' : sgraph),
+  avu_post cap s n s' <->
+  (forall j : nat, nwo (sg s') j = nwo (sg s) j) /\
+  gedges (sg s') = gedges (sg s) /\
+  length (gnodes (sg s')) = length (gnodes (sg s)) + n /\
+  (forall (k j : nat) (l : list nat),
+   nwo (sg s) j <> None -> adj cap (sg s) k j l -> adj cap (sg s') k j l) /\
+  ncount s' = ncount s /\
+  ecount s' = ecount s /\
+  free_edge s' = free_edge s /\
+  (forall l : list nat,
+   lseg (fnx (sg s)) (free_node s) l cap ->
+   lseg (fnx (sg s')) (free_node s') (rev (seq (length (gnodes (sg s))) n) ++ l) cap).
+Proof. exact (@avu_post_meaning). Qed.
+
 (* X2. extend_with_edges always returns (the model's boolean is false when the Rust code panics part-way) and the
 state it leaves satisfies the invariant in both cases; [ext_room] (needed for unchecked indices only) and
 [ext_result] are spelled out below. *)
@@ -257,8 +283,10 @@ Proof. exact (@ext_room_meaning). Qed.
 (* X2. The result: invariant; old live nodes and edges untouched ([keeps]); slot counts bounded; a node that becomes
 live is an endpoint named in the list and has weight 0; the list splits into the processed prefix [pre], each of
 whose edges got its own fresh index (a slot that was not live before, [added]), and the rest [post]: empty when
-the boolean is true; when false the indices are checked and the first unprocessed edge names a node at or beyond
-the index limit, or the edge index limit is reached (no vacancy, cap slots). *)
+the boolean is true; when false the indices are checked and the first unprocessed edge (a, b, w) names a node at or
+beyond the index limit (a itself, or b after a has been made live) -- and then the node vector has been padded with
+vacant slots up to exactly cap entries before the panic (they stay behind, on the free list: the invariant holds)
+-- or both endpoints are below the limit and the edge index limit is reached (no vacancy, cap slots). *)
 Theorem C02b_ext_result :
   forall (cap : nat) (capcheck : bool) (s : sgraph) (es : list (nat * nat * nat)) 
     (ok : bool) (s' : sgraph),
@@ -281,7 +309,8 @@ Theorem C02b_ext_result :
        capcheck = true /\
        (exists (a b w : nat) (post' : list (nat * nat * nat)),
           post = (a, b, w) :: post' /\
-          (cap <= a \/ cap <= b \/ free_edge s' = cap /\ length (gedges (sg s')) = cap)))).
+          ((cap <= a \/ nwo (sg s') a <> None /\ cap <= b) /\ length (gnodes (sg s')) = cap \/
+           a < cap /\ b < cap /\ free_edge s' = cap /\ length (gedges (sg s')) = cap)))).
 Proof. exact (@ext_result_meaning). Qed.
 
 (* [keeps s s']: every live node / edge of s is live in s' with the same weight and endpoints. *)
@@ -551,7 +580,8 @@ Example C02b_demo_update_edge :
 Proof. exact (@demo_update_edge). Qed.
 
 (* extend_with_edges naming the vacant slot 1 and the slot 6 beyond the vector; and stopping at a node index
-beyond the limit (the first edge stays added). *)
+beyond the limit (the first edge stays added; the padding for node 9 has filled the vector up to 8 slots before the
+panic: the vacant slots 5, 6, 7 stay behind and the free list reads 7 -> 6 -> 5 -> 3). *)
 Example C02b_demo_extend :
   (let '(ok, s) := s_extend_with_edges 8 true true demo2 [(1, 6, 500)] in (ok, sview 8 s)) =
   (true,
@@ -563,10 +593,45 @@ Example C02b_demo_extend :
    '(ok, s) := s_extend_with_edges 8 true true demo2 [(1, 2, 500); (0, 9, 501); (4, 4, 502)] in
     (ok, sview 8 s)) =
   (false,
-   ([(Some 10, (0, 2)); (Some 0, (1, 8)); (Some 12, (3, 1)); (None, (8, 8)); (Some 14, (2, 8))],
+   ([(Some 10, (0, 2)); (Some 0, (1, 8)); (Some 12, (3, 1)); (None, (8, 5)); (Some 14, (2, 8));
+     (None, (3, 6)); (None, (5, 7)); (None, (6, 8))],
     [(Some 100, (8, 8), (0, 2)); (Some 500, (8, 3), (1, 2)); (Some 102, (8, 8), (4, 0));
-     (Some 103, (8, 0), (2, 2))], (4, 4, 3, 8), true)).
+     (Some 103, (8, 0), (2, 2))], (4, 4, 7, 8), true)).
 Proof. exact (@demo_extend). Qed.
+
+(* The index limit of a u8 graph (cap = 255, checked indices; [two255] = add_node 1; add_node 2).  [limit_obs s] =
+(number of node slots, node_count, edge_count, node_bound = last live index + 1, free_node, check_free_lists, the
+index a following add_node returns).  extend_with_edges [(255, 0, 7)] panics after ensure_node_exists(255) has
+pushed the vacant slots 2 .. 254: 255 slots, node_count 2, and the next add_node returns 254 (not 2).  With
+[(4, 255, 7)] node 4 is created first (slots 2, 3, 4 pushed, 4 occupied: node_count 3, node_bound 5, free list
+3 -> 2), then the padding for 255 pushes 5 .. 254 and panics; the next add_node returns 254. *)
+Example C02b_demo_extend_limit :
+  limit_obs two255 = (2, 2, 0, 2, 255, true, Ok (inr 2)) /\
+  (let '(ok, s) := s_extend_with_edges 255 true true two255 [(255, 0, 7)] in (ok, limit_obs s)) =
+  (false, (255, 2, 0, 2, 254, true, Ok (inr 254))) /\
+  (let '(ok, s) := s_extend_with_edges 255 true true two255 [(4, 255, 7)] in
+    (ok, limit_obs s, firstn 6 (map (fun n => (nwt n, nnext n)) (gnodes (sg s))))) =
+  (false, (255, 3, 0, 5, 254, true, Ok (inr 254)),
+   [(Some 1, (255, 255)); (Some 2, (255, 255)); (None, (255, 3)); (None, (2, 5));
+    (Some 0, (255, 255)); (None, (3, 6))]).
+Proof. exact (@demo_extend_limit). Qed.
+
+(* The same two sequences through the stream interpreter of Model/StableIO.v (header: directed, debug, cap 255,
+checked): result line and counts line (node_count, edge_count, node_bound, edge_bound) of every step. *)
+Example C02b_demo_extend_limit_stream :
+  map (firstn 2)
+    (run_case [1; 1; 255; 1]%Z [(0, [1%Z]); (0, [2%Z]); (13, [255; 0; 7]%Z); (0, [9%Z])]) =
+  [[(TAG_IDX, [0%Z]); (TAG_COUNTS, [1; 0; 1; 0]%Z)];
+   [(TAG_IDX, [1%Z]); (TAG_COUNTS, [2; 0; 2; 0]%Z)];
+   [(TAG_PANIC, []); (TAG_COUNTS, [2; 0; 2; 0]%Z)];
+   [(TAG_IDX, [254%Z]); (TAG_COUNTS, [3; 0; 255; 0]%Z)]] /\
+  map (firstn 2)
+    (run_case [1; 1; 255; 1]%Z [(0, [1%Z]); (0, [2%Z]); (13, [4; 255; 7]%Z); (0, [9%Z])]) =
+  [[(TAG_IDX, [0%Z]); (TAG_COUNTS, [1; 0; 1; 0]%Z)];
+   [(TAG_IDX, [1%Z]); (TAG_COUNTS, [2; 0; 2; 0]%Z)];
+   [(TAG_PANIC, []); (TAG_COUNTS, [3; 0; 5; 0]%Z)];
+   [(TAG_IDX, [254%Z]); (TAG_COUNTS, [4; 0; 255; 0]%Z)]].
+Proof. exact (@demo_extend_limit_stream). Qed.
 
 (* A history using every operation, and the values returned after the first twelve steps. *)
 Example C02b_demo_all :
@@ -721,12 +786,16 @@ Check C02b_occupy_out_of_range :
 Check C02b_ensure_node_exists :
   forall (cap : nat) (capcheck debug : bool) (s : sgraph) (ix : nat),
   SInv cap s ->
-  (nwo (sg s) ix <> None -> ensure_node_exists cap capcheck debug s ix = Ok s) /\
+  (nwo (sg s) ix <> None -> ensure_node_exists cap capcheck debug s ix = (Ok tt, s)) /\
   (nwo (sg s) ix = None ->
    ix < cap ->
    exists s' : sgraph,
-     ensure_node_exists cap capcheck debug s ix = Ok s' /\ SInv cap s' /\ ens_post cap s ix s') /\
-  (capcheck = true -> cap <= ix -> ensure_node_exists cap capcheck debug s ix = Panic).
+     ensure_node_exists cap capcheck debug s ix = (Ok tt, s') /\ SInv cap s' /\ ens_post cap s ix s') /\
+  (capcheck = true ->
+   cap <= ix ->
+   exists s' : sgraph,
+     ensure_node_exists cap capcheck debug s ix = (Panic, s') /\
+     SInv cap s' /\ avu_post cap s (cap - length (gnodes (sg s))) s').
 Check C02b_ens_post :
   forall (cap : nat) (s : sgraph) (ix : nat) (s' : sgraph),
   ens_post cap s ix s' <->
@@ -745,6 +814,20 @@ Check C02b_ens_post :
    exists l1 l2 : list nat,
      rev (seq (length (gnodes (sg s))) (S ix - length (gnodes (sg s)))) ++ l = l1 ++ ix :: l2 /\
      lseg (fnx (sg s')) (free_node s') (l1 ++ l2) cap /\ bkp (sg s') cap (l1 ++ l2)).
+Check C02b_avu_post :
+  forall (cap : nat) (s : sgraph) (n : nat) (s' : sgraph),
+  avu_post cap s n s' <->
+  (forall j : nat, nwo (sg s') j = nwo (sg s) j) /\
+  gedges (sg s') = gedges (sg s) /\
+  length (gnodes (sg s')) = length (gnodes (sg s)) + n /\
+  (forall (k j : nat) (l : list nat),
+   nwo (sg s) j <> None -> adj cap (sg s) k j l -> adj cap (sg s') k j l) /\
+  ncount s' = ncount s /\
+  ecount s' = ecount s /\
+  free_edge s' = free_edge s /\
+  (forall l : list nat,
+   lseg (fnx (sg s)) (free_node s) l cap ->
+   lseg (fnx (sg s')) (free_node s') (rev (seq (length (gnodes (sg s))) n) ++ l) cap).
 Check C02b_extend_with_edges :
   forall (cap : nat) (capcheck debug : bool) (es : list (nat * nat * nat)) (s : sgraph),
   SInv cap s ->
@@ -779,7 +862,8 @@ Check C02b_ext_result :
        capcheck = true /\
        (exists (a b w : nat) (post' : list (nat * nat * nat)),
           post = (a, b, w) :: post' /\
-          (cap <= a \/ cap <= b \/ free_edge s' = cap /\ length (gedges (sg s')) = cap)))).
+          ((cap <= a \/ nwo (sg s') a <> None /\ cap <= b) /\ length (gnodes (sg s')) = cap \/
+           a < cap /\ b < cap /\ free_edge s' = cap /\ length (gedges (sg s')) = cap)))).
 Check C02b_keeps :
   forall s s' : sgraph,
   keeps s s' <->
@@ -981,9 +1065,32 @@ Check C02b_demo_extend :
    '(ok, s) := s_extend_with_edges 8 true true demo2 [(1, 2, 500); (0, 9, 501); (4, 4, 502)] in
     (ok, sview 8 s)) =
   (false,
-   ([(Some 10, (0, 2)); (Some 0, (1, 8)); (Some 12, (3, 1)); (None, (8, 8)); (Some 14, (2, 8))],
+   ([(Some 10, (0, 2)); (Some 0, (1, 8)); (Some 12, (3, 1)); (None, (8, 5)); (Some 14, (2, 8));
+     (None, (3, 6)); (None, (5, 7)); (None, (6, 8))],
     [(Some 100, (8, 8), (0, 2)); (Some 500, (8, 3), (1, 2)); (Some 102, (8, 8), (4, 0));
-     (Some 103, (8, 0), (2, 2))], (4, 4, 3, 8), true)).
+     (Some 103, (8, 0), (2, 2))], (4, 4, 7, 8), true)).
+Check C02b_demo_extend_limit :
+  limit_obs two255 = (2, 2, 0, 2, 255, true, Ok (inr 2)) /\
+  (let '(ok, s) := s_extend_with_edges 255 true true two255 [(255, 0, 7)] in (ok, limit_obs s)) =
+  (false, (255, 2, 0, 2, 254, true, Ok (inr 254))) /\
+  (let '(ok, s) := s_extend_with_edges 255 true true two255 [(4, 255, 7)] in
+    (ok, limit_obs s, firstn 6 (map (fun n => (nwt n, nnext n)) (gnodes (sg s))))) =
+  (false, (255, 3, 0, 5, 254, true, Ok (inr 254)),
+   [(Some 1, (255, 255)); (Some 2, (255, 255)); (None, (255, 3)); (None, (2, 5));
+    (Some 0, (255, 255)); (None, (3, 6))]).
+Check C02b_demo_extend_limit_stream :
+  map (firstn 2)
+    (run_case [1; 1; 255; 1]%Z [(0, [1%Z]); (0, [2%Z]); (13, [255; 0; 7]%Z); (0, [9%Z])]) =
+  [[(TAG_IDX, [0%Z]); (TAG_COUNTS, [1; 0; 1; 0]%Z)];
+   [(TAG_IDX, [1%Z]); (TAG_COUNTS, [2; 0; 2; 0]%Z)];
+   [(TAG_PANIC, []); (TAG_COUNTS, [2; 0; 2; 0]%Z)];
+   [(TAG_IDX, [254%Z]); (TAG_COUNTS, [3; 0; 255; 0]%Z)]] /\
+  map (firstn 2)
+    (run_case [1; 1; 255; 1]%Z [(0, [1%Z]); (0, [2%Z]); (13, [4; 255; 7]%Z); (0, [9%Z])]) =
+  [[(TAG_IDX, [0%Z]); (TAG_COUNTS, [1; 0; 1; 0]%Z)];
+   [(TAG_IDX, [1%Z]); (TAG_COUNTS, [2; 0; 2; 0]%Z)];
+   [(TAG_PANIC, []); (TAG_COUNTS, [3; 0; 5; 0]%Z)];
+   [(TAG_IDX, [254%Z]); (TAG_COUNTS, [4; 0; 255; 0]%Z)]].
 Check C02b_demo_all :
   (exists s : sgraph, run2 8 true true true (sg_empty 8) demo_all_ops = Ok s /\ SInv 8 s) /\
   souts2 8 true true true demo2 (skipn 12 demo_all_ops) =
@@ -1011,6 +1118,7 @@ Print Assumptions C02b_occ_post.
 Print Assumptions C02b_occupy_out_of_range.
 Print Assumptions C02b_ensure_node_exists.
 Print Assumptions C02b_ens_post.
+Print Assumptions C02b_avu_post.
 Print Assumptions C02b_extend_with_edges.
 Print Assumptions C02b_ext_room.
 Print Assumptions C02b_ext_result.
@@ -1037,5 +1145,7 @@ Print Assumptions C02b_demo_filter_map.
 Print Assumptions C02b_demo_find_edge.
 Print Assumptions C02b_demo_update_edge.
 Print Assumptions C02b_demo_extend.
+Print Assumptions C02b_demo_extend_limit.
+Print Assumptions C02b_demo_extend_limit_stream.
 Print Assumptions C02b_demo_all.
 Print Assumptions C02b_demo_unchecked.
